@@ -1,6 +1,16 @@
 package lib
 
-import "testing"
+import (
+	"os"
+	"testing"
+)
+
+// TestMain: with VERIF_HELPER set the binary acts as an external minifier command (used
+// for AddCmd registrations); otherwise it runs the one test below.
+func TestMain(m *testing.M) {
+	HelperMain()
+	os.Exit(m.Run())
+}
 
 // TestSim is the only test: the binary is a worker driven by /verif/verif through
 // environment variables (see harness.go).
